@@ -19,6 +19,12 @@ pub mod util;
 
 pub const VERIF_ROOT: &str = "/verif";
 
+/// Where evidence and replay files go: /verif, unless VERIF_OUT redirects them
+/// (used when a check is run against a scratch copy of the repository).
+pub fn out_root() -> PathBuf {
+    std::env::var("VERIF_OUT").map(PathBuf::from).unwrap_or_else(|_| PathBuf::from(VERIF_ROOT))
+}
+
 /// Reserved sub-case id: set-up work of a unit (building runtimes etc.)
 pub const SUB_SETUP: u64 = u64::MAX - 1;
 /// Reserved sub-case id: nothing was running
@@ -725,8 +731,17 @@ fn run_pool(
 }
 
 fn load_findings(property: &str) -> Vec<Finding> {
-    let p = Path::new(VERIF_ROOT).join("known_findings.json");
-    let Ok(s) = std::fs::read_to_string(&p) else { return vec![] };
+    let mut all = load_findings_file(&Path::new(VERIF_ROOT).join("known_findings.json"), property);
+    // per-property staging file used while a check is being developed
+    all.extend(load_findings_file(
+        &Path::new(VERIF_ROOT).join("known_findings.d").join(format!("{property}.json")),
+        property,
+    ));
+    all
+}
+
+fn load_findings_file(p: &Path, property: &str) -> Vec<Finding> {
+    let Ok(s) = std::fs::read_to_string(p) else { return vec![] };
     let Ok(v) = serde_json::from_str::<Value>(&s) else { return vec![] };
     v["findings"]
         .as_array()
@@ -791,7 +806,7 @@ pub fn main(check: &dyn Check) -> ! {
     // classified; they only exist if a unit had > 200 violations
     let dropped = agg.counter("violations_dropped");
 
-    let replay_dir = Path::new(VERIF_ROOT).join("replays");
+    let replay_dir = out_root().join("replays");
     let _ = std::fs::create_dir_all(&replay_dir);
     for (fid, (n, desc)) in &known_seen {
         println!("KNOWN-FINDING: property={id} {fid}: {desc} ({n} cases)");
@@ -874,7 +889,7 @@ pub fn main(check: &dyn Check) -> ! {
         "wall_s": start.elapsed().as_secs_f64(),
         "violations": unlisted.len(),
     });
-    let ev_dir = Path::new(VERIF_ROOT).join("evidence");
+    let ev_dir = out_root().join("evidence");
     let _ = std::fs::create_dir_all(&ev_dir);
     let _ = std::fs::write(
         ev_dir.join(format!("{id}.json")),
